@@ -27,7 +27,7 @@ def models(tier, seed):
 
 
 def required_tags(tier):
-    return ['states:1', 'states:2', 'inductors>=2', 'energy', 'scheme:other', 'listing_not_alphabetical', 'decade_units', 'reanalysed_with_other_values']
+    return ['states:1', 'states:2', 'inductors>=2', 'energy', 'scheme:other', 'listing_not_alphabetical', 'decade_units', 'reanalysed_with_other_values', 'integer_values']
 
 
 def replay(case, ctx):
@@ -78,7 +78,13 @@ def replay(case, ctx):
         # states in physical units: capacitor voltages scale with vu, inductor currents with vu / zu; time with 1 / wu
         sv = np.array([1.0] * len(c_values) + [1.0 / zu] * len(l_values))
         Awant = wu * Aspec * sv[:, None] / sv[None, :] if n else Aspec
-        for name, fn in (('nodal_state_space_model', lambda: nodal_state_space_model(transform_circuit(circuit, w=0), c_values=dict(c_values), l_values=dict(l_values)).A),
+        # value types: whole numbers are passed as Python ints (a user writes {'C1': 2, 'L1': 1}), the others as floats
+        def typed(d):
+            if all(float(v).is_integer() and abs(v) < 2 ** 53 for v in d.values()) and d:
+                tg.add('integer_values')
+                return {k: int(v) for k, v in d.items()}
+            return dict(d)
+        for name, fn in (('nodal_state_space_model', lambda: nodal_state_space_model(transform_circuit(circuit, w=0), c_values=typed(c_values), l_values=typed(l_values)).A),
                          ('state_space_model', lambda: cssm.state_space_model(circuit).A)):
             A, e = call(fn)
             r.observations += 1
